@@ -94,6 +94,11 @@ def units(tier):
     wrap("C01.add_other_logk.named_expression_and_form", M.unit_add_other_logk_lookup)
     from props import c01_ktemp as KT
     wrap("C01.k_temp.every_logK_at_solution_T_and_P", KT.unit_k_temp)
+    from props import c15_readers as RD
+    wrap("C01.read_analytical_expression_only.six_coefficients_in_order", RD.unit_analytic)
+    def _dh(twin=False):
+        r_ = RD.unit_delta_h(twin); r_.id = "C01.read_delta_h_only.enthalpy_stored_in_kJ_for_every_unit"; return r_
+    wrap("C01.read_delta_h_only.enthalpy_stored_in_kJ_for_every_unit", _dh)
     wrap("C01.iap_logk_pairing", M.unit_iap_logk_pairing)
     wrap("C01.build_model.prescribed_mole_balance_used_at_both_sites", M.unit_species_list_site)
     wrap("C01.write_mass_action_eqn_x.rewrite_scaled_by_token_coefficient", M.unit_rewrite_scaling)
